@@ -1,7 +1,131 @@
 import CogentModel.Json
-open CogentModel
+import CogentModel.Model.GeneticCode
+import CogentModel.Spec.GeneticCode
+open CogentModel CogentModel.GC CogentModel.C12Tables
 
-def handle (cmd : String) (_j : J) : Except String J :=
-  throw s!"unknown command {cmd}"
+def errStr : Err → String
+  | .valueError => "ValueError"
+  | .alphabetError => "AlphabetError"
+  | .invalidCodon => "InvalidCodonError"
+
+def sJ (cs : List Char) : J := J.str (String.ofList cs)
+
+def exJ {α} (f : α → J) : Except Err α → J
+  | .ok a => f a
+  | .error e => J.obj [("err", J.str (errStr e))]
+
+def getS (j : J) (k : String) : Except String (List Char) := do
+  pure (← (← j.get k).toStr).toList
+
+def findCode (codes : List (Nat × List Char × List Char)) (id : Nat) : Except String (List Char) :=
+  match codes.find? (·.1 = id) with
+  | some c => pure c.2.1
+  | none => throw s!"no code {id}"
+
+def getMT (name : String) : Except String MT :=
+  match name with
+  | "olddna" => pure oldDna
+  | "oldrna" => pure oldRna
+  | "newdna" => pure newDna
+  | "newrna" => pure newRna
+  | s => throw s!"bad moltype {s}"
+
+def codesJ (codes : List (Nat × List Char × List Char)) (names : List (Nat × String)) : J :=
+  J.arr (codes.map fun (i, s, st) =>
+    J.arr [J.num i, J.str ((names.find? (·.1 = i)).map (·.2) |>.getD ""), sJ s, sJ st])
+
+def mtJ (mt : MT) : J :=
+  J.obj [("chars", sJ mt.chars), ("gap", sJ [mt.gap]), ("missing", sJ [mt.missing]),
+         ("ambig", J.arr (mt.ambig.map fun (k, v) => J.arr [sJ [k], sJ v])),
+         ("compl", J.arr (mt.compl.map fun (k, v) => J.arr [sJ [k], sJ [v]]))]
+
+def framesJ (fs : List (Bool × Nat × List Char)) : J :=
+  J.arr (fs.map fun (m, k, t) => J.arr [J.str (if m then "-" else "+"), J.num k, sJ t])
+
+def handle (cmd : String) (j : J) : Except String J :=
+  match cmd with
+  | "tables" =>
+    pure (J.obj [("old_codes", codesJ oldCodes oldCodesNames), ("new_codes", codesJ newCodes newCodesNames),
+                 ("olddna", mtJ oldDna), ("oldrna", mtJ oldRna), ("newdna", mtJ newDna), ("newrna", mtJ newRna)])
+  | "codontable" => do
+    -- every codon over the given alphabet through the four modelled look-ups
+    let id ← (← j.get "code").toNat
+    let alpha ← getS j "alpha"
+    let cods := product3 alpha
+    let nseq ← findCode newCodes id
+    let g := mkNewGC newDna nseq
+    let idxOf := fun (w : List Char) =>
+      match w.map (monoIdx g.alpha) with
+      | [a, b, c] => kmerIdx g.ns g.gci g.gi a b c
+      | _ => 0
+    let plus := cods.map fun w => g.plus (idxOf w)
+    let minus := cods.map fun w => g.minus (idxOf w)
+    let nget := cods.map (newGetItem newDna nseq)
+    let oget ← match oldCodes.find? (·.1 = id) with
+      | some c => pure (sJ (cods.map (oldGetItem c.2.1)))
+      | none => pure J.null
+    pure (J.obj [("plus", sJ plus), ("minus", sJ minus), ("newget", sJ nget), ("oldget", oget),
+                 ("spec", sJ (cods.map (GCSpec.aa nseq)))])
+  | "translate" => do
+    let id ← (← j.get "code").toNat
+    let s ← getS j "s"
+    let start ← (← j.get "start").toNat
+    match ← (← j.get "impl").toStr with
+    | "new" => do
+      let rc ← (← j.get "rc").toBool
+      pure (sJ (newTranslate newDna (← findCode newCodes id) s start rc))
+    | "old" => pure (exJ sJ (oldTranslate (← findCode oldCodes id) s start))
+    | w => throw s!"bad impl {w}"
+  | "sixframes" => do
+    let id ← (← j.get "code").toNat
+    let s ← getS j "s"
+    match ← (← j.get "impl").toStr with
+    | "new" => pure (framesJ (newSixframes newDna (← findCode newCodes id) s))
+    | "old" => pure (exJ (fun fs => J.arr (fs.map sJ)) (oldSixframes oldDna (← findCode oldCodes id) s))
+    | w => throw s!"bad impl {w}"
+  | "seqtr" => do
+    let id ← (← j.get "code").toNat
+    let s ← getS j "s"
+    let io ← (← j.get "incomplete_ok").toBool
+    let is_ ← (← j.get "include_stop").toBool
+    let ts ← (← j.get "trim_stop").toBool
+    match ← (← j.get "impl").toStr with
+    | "new" => pure (exJ sJ (newSeqGetTranslation newDna (← findCode newCodes id) s io is_ ts))
+    | "old" => pure (exJ sJ (oldSeqGetTranslation (← findCode oldCodes id) s io is_ ts))
+    | w => throw s!"bad impl {w}"
+  | "sym" => do
+    let name ← (← j.get "mt").toStr
+    let mt ← getMT name
+    let old := name.startsWith "old"
+    let arg ← getS j "arg"
+    match ← (← j.get "op").toStr with
+    | "complement" => pure (sJ (if old then oldComplement mt arg else newComplement mt arg))
+    | "rc" => pure (sJ (if old then oldRc mt arg else newRc mt arg))
+    | "resolve" =>
+      match arg with
+      | [c] => pure (exJ sJ (if old then (oldResolve mt c).map toSet else newResolve mt c))
+      | _ => throw "resolve: one symbol"
+    | "what" => pure (sJ [if old then oldWhatAmbiguity mt arg else newDegenerateFromSeq mt arg])
+    | "baseset" =>
+      match arg with
+      | [c] => pure (sJ (GCSpec.baseSet mt.chars mt.gap mt.missing mt.ambig c))
+      | _ => throw "baseset: one symbol"
+    | w => throw s!"bad op {w}"
+  | "spec" => do
+    -- the specification itself (validated against an independent Python oracle each run)
+    let id ← (← j.get "code").toNat
+    let s ← getS j "s"
+    let code ← findCode newCodes id
+    match ← (← j.get "what").toStr with
+    | "sixframes" => pure (framesJ (GCSpec.sixframes code s))
+    | "get_translation" => do
+      let io ← (← j.get "incomplete_ok").toBool
+      let is_ ← (← j.get "include_stop").toBool
+      let ts ← (← j.get "trim_stop").toBool
+      match GCSpec.getTranslation code s io is_ ts with
+      | .pep p => pure (sJ p)
+      | .rejected => pure (J.obj [("err", J.str "rejected")])
+    | w => throw s!"bad what {w}"
+  | _ => throw s!"unknown command {cmd}"
 
 def main : IO Unit := driverLoop handle
